@@ -179,6 +179,20 @@ class RelationsMapIndex {
     explicit RelationsMapIndex(detail::rel_index_map_type<uint64_t>&& map) : m_map64(std::move(map)), m_small(true) {}      // R4
 public:
     std::size_t size() const noexcept { return m_small ? m_map64.size() : m_map32.size(); }                                // R4
+    template <typename TFunc>
+    void for_each(const uint64_t id, TFunc&& func) const {
+        if (m_small) {
+            const auto parents = m_map32.get(id);                                                                          // R3: 64-bit id narrowed unchecked
+            for (auto it = parents.first; it != parents.second; ++it) {
+                std::forward<TFunc>(func)(it->value);
+            }
+        } else {
+            const auto parents = m_map64.get(id);
+            for (auto it = parents.first; it != parents.second; ++it) {
+                std::forward<TFunc>(func)(it->value);
+            }
+        }
+    }
 };
 
 class RelationsMapStash {
@@ -215,6 +229,7 @@ inline void c15_use(RelationsMapStash& s) {
     s.add(1, 2);
     auto i = s.build_member_to_parent_index();
     (void)i.size();
+    i.for_each(1, [](uint64_t) {});
 }
 
 } // namespace index
@@ -260,7 +275,16 @@ public:
     std::size_t size() const noexcept { return m_count_items; }
     std::size_t count_removed() const noexcept { return m_count_removed; }
     void clear() { m_buffer.clear(); m_count_items = 0; m_count_removed = 0; }                           // I3: index kept
+    bool should_gc() const noexcept {
+        if (m_count_items * 5UL < m_count_removed) {                                                     // I5: no collection when removed items dominate
+            return false;
+        }
+        return m_count_removed > 10UL;
+    }
     handle_type add_item(const osmium::memory::Item& item) {
+        if (should_gc()) {
+            garbage_collect();
+        }
         m_buffer.add_item(item);
         const auto offset = m_buffer.committed();                                                        // I3: read after the add
         m_buffer.commit();
